@@ -176,3 +176,33 @@ Theorem C16_statement_accepted_plain :
                  = final_run cid_of (opening cid_of b0) ts c.
 Proof. intros. eapply statement_accepted_plain; eauto. Qed.
 Print Assumptions C16_statement_accepted_plain.
+
+(* Known finding C16-K1.  The balancing hypothesis of C16_statement_accepted (stxn_ok: the printed
+   transaction sums to zero under the stated rate) cannot be dropped: the second row of the
+   repository's own csv_multi_currency golden (23.45 CHF credited at 114.0500 JPY, the bank's
+   rounded 2675 JPY extracted as the secondary amount) is import output, satisfies every other
+   hypothesis with a consistent running balance, and is refused by the book-keeping. *)
+Theorem C16_statement_accepted_refuted :
+  exists (acct equity : str) (t : txn) (b0 : list (str * dec)),
+    (exists (cfg : entry str) (d : row_data),
+        build_txn Proofs.ImpExamples.lit_captures cfg d = IOk t /\ e_account cfg = acct
+        /\ e_account_type cfg = Asset)
+    /\ str_code equity <> str_code acct
+    /\ Forall (fun cv => fst cv <> []) b0
+    /\ Forall names_ok (st_posts (to_double_entry t acct))
+    /\ Forall cost_ok (map (pp_of str_code str_code) (st_posts (to_double_entry t acct)))
+    /\ elsewhere str_code acct t
+    /\ consistent str_code (opening str_code b0) [t]
+    /\ exists r,
+         fst (Book.process (book_entries str_code str_code
+                (funding acct equity (-1)%Z b0 ++ map (fun t => to_double_entry t acct) [t])))
+         = Book.Err (Book.UnbalancedPostings r).
+Proof.
+  exists Proofs.ImpExamples.s_bank, Proofs.ImpExamples.s_equity, Proofs.ImpExamples.ex_rounded_txn,
+         Proofs.ImpExamples.ex_rounded_opening.
+  destruct Proofs.ImpExamples.ex_rounded_hyps as (H1 & H2 & H3 & H4 & H5 & H6).
+  split; [exists Proofs.ImpExamples.ex_rounded_cfg, Proofs.ImpExamples.ex_rounded_row;
+          split; [exact Proofs.ImpExamples.ex_rounded_built|split; reflexivity]|].
+  repeat (split; [assumption|]). exact Proofs.ImpExamples.ex_rounded_refused.
+Qed.
+Print Assumptions C16_statement_accepted_refuted.
